@@ -19,14 +19,19 @@ from svlib import Report, build_many, run_many, parse_engine_output, BuildError,
 # hist-engine configurations
 
 
-def cfg(T, alloc, NA, NB, pocca=0, pocma=0, pocs=0, ae=0, construct=0, soccc=1):
-    return {"SV_T": T, "SV_ALLOC": alloc, "SV_NA": NA, "SV_NB": NB, "SV_POCCA": pocca, "SV_POCMA": pocma,
-            "SV_POCS": pocs, "SV_AE": ae, "SV_CONSTRUCT": construct, "SV_SOCCC": soccc}
+def cfg(T, alloc, NA, NB, pocca=0, pocma=0, pocs=0, ae=0, construct=0, soccc=1, throwdef=0):
+    c = {"SV_T": T, "SV_ALLOC": alloc, "SV_NA": NA, "SV_NB": NB, "SV_POCCA": pocca, "SV_POCMA": pocma,
+         "SV_POCS": pocs, "SV_AE": ae, "SV_CONSTRUCT": construct, "SV_SOCCC": soccc}
+    if throwdef:
+        c["SV_THROWDEF"] = 1
+    return c
 
 
 def cfg_name(c):
     a = "std" if c["SV_ALLOC"] == 0 else "L%d%d%d%s%s" % (c["SV_POCCA"], c["SV_POCMA"], c["SV_POCS"],
                                                            "ae" if c["SV_AE"] else "", "c" if c["SV_CONSTRUCT"] else "")
+    if c.get("SV_THROWDEF"):
+        a += "td"
     return "%s/%s/N%d,%d" % (c["SV_T"], a, c["SV_NA"], c["SV_NB"])
 
 
@@ -47,6 +52,10 @@ Q = {
     "tnx-l000c":    cfg("TNx", 1, 1, 4, 0, 0, 0, 0, 1),
     "tnx-l101":     cfg("TNx", 1, 2, 5, 1, 0, 1),
     "tthrow-l011":  cfg("TThrow", 1, 5, 2, 0, 1, 1),
+}
+QTD = {
+    "tnx-td":       cfg("TNx", 1, 2, 5, throwdef=1),
+    "tthrow-td":    cfg("TThrow", 1, 0, 3, 0, 1, 0, throwdef=1),
 }
 
 
@@ -517,10 +526,139 @@ def check_C12(tier, seed):
     rp.extra["exhaustive_note"] = "exhaustive for the uint8_t configurations (every size, count 0..255, range length 0..300); boundary sampling for wider size types"
     return rp.finish()
 
+def check_C18(tier, seed):
+    rp = Report("C18", tier, seed, "fault_enumeration")
+    rp.rule = ("(1) static table: for {nothrow/throwing} x {move ctor, move assign, swap} element types (8 + int) x N in {0,3} x source N in {0,2,3,5} x allocators {std, always-equal, L000, POCMA, POCS, L111, "
+               "throwing default ctor, u16 size_type} the observed noexcept(...) of default/move/allocator/converting constructors, move assignment, assign(&&), swap (member/non-member), clear, observers and "
+               "of operations that must not be noexcept is compared with the README formula re-implemented from the traits; iterator triviality/category/contiguity and every nested type are checked; "
+               "(2) truthfulness: every op whose noexcept(...) is true for the configuration must perform zero allocate() and zero potentially-throwing element operations (random histories, sweep); every op "
+               "NOT declared noexcept is run under single-fault enumeration over allocate, element ctor/assign/swap, iterator */++, generator and the allocator's default constructor: the fault must reach the caller "
+               "-- a process that dies in std::terminate is the witness; tuple = (config, expression, documented value) for (1) and fault tuples for (2)")
+    jobs = []
+    for cc, std in (("g++", "c++17"), ("g++", "c++20")) + ((("clang++", "c++20"), ("clang++", "c++17"), ("g++", "c++23")) if tier != "quick" else ()):
+        jobs.append({"src": "traits.cpp", "cc": cc, "flags": ["-std=" + std, "-O0"], "args": [], "name": "traits/%s/%s" % (cc, std), "config_class": std,
+                     "compile_failure_is_violation": True})
+    run_simple_engines(rp, "C18", "traits", jobs)
+    mon = ["--monitors", "C18"]
+    plan = []
+    fl = "asan-dbg" if tier == "quick" else "asan-dbg-o1"
+    lvl = 0 if tier == "quick" else 1
+    ks = ("tnx-l000", "tthrow-l000", "tmo-l111", "tco-l010", "tsw-l110") if tier == "quick" else list(Q.keys())
+    for k in ks:
+        plan += shards(Q[k], fl, ["--mode", "fault", "--level", lvl] + mon, 3 if tier == "quick" else 6)
+        plan.append(hist_run(Q[k], fl, ["--mode", "random", "--focus", "alloc", "--cases", 400 if tier == "quick" else 5000, "--len", 60, "--seed", seed] + mon))
+    for k in QTD:
+        plan += shards(QTD[k], fl, ["--mode", "fault", "--level", lvl] + mon, 3 if tier == "quick" else 6)
+        plan.append(hist_run(QTD[k], fl, ["--mode", "random", "--cases", 300 if tier == "quick" else 3000, "--len", 40, "--seed", seed] + mon))
+    run_hist_plan(rp, "C18", plan)
+    floor(rp, "c18.noexcept-ops-observed", 1000, "noexcept operations observed at run time")
+    floor(rp, "faults-fired", 1000, "injected faults")
+    return rp.finish()
+
+def layout_grid():
+    cfgs = []
+    for al in (1, 2, 4, 8, 16, 32, 64):
+        for sz in range(al, 73, al):
+            for state in (0, 1, 4, 8, 12, 16, 24):
+                for st, stname in (("unsigned char", "u8"), ("unsigned short", "u16"), ("unsigned int", "u32"), ("unsigned long", "u64")):
+                    cfgs.append((sz, al, state, st, stname))
+    return cfgs
+
+
+def check_C19(tier, seed):
+    import hashlib
+    rp = Report("C19", tier, seed, "exploration")
+    rp.rule = ("generated probe programs print, for every configuration (element size 1..72 x alignment 1..64 with size a multiple of alignment, allocator state 0/1/4/8/12/16/24 bytes, size_type u8/u16/u32/u64), "
+               "D = default_buffer_size, sizeof(small_vector<T,0,A>), sizeof(<T,D,A>), sizeof(<T,D+1,A>), alignof, inline_capacity(); oracle: sizeof(<T,D,A>) <= 64 < sizeof(<T,D+1,A>) (sizeof is monotone in N, so D is the largest "
+               "count that fits) or D == 1 and not even one element fits; inline_capacity() == N; a stateless allocator with N = 0 gives exactly pointer + 2 size_type rounded to pointer alignment; at run time the inline "
+               "buffer of objects placed at minimally aligned addresses is aligned for T (UBSan alignment on); tuple = (size, align, state, size_type)")
+    rp.assumptions = ["sizeof(small_vector<T,N,A>) is monotone in N", "x86-64 GCC/Clang ABI"]
+    grid = layout_grid()
+    if tier == "quick":
+        # stratified subset: every (align, state, size_type) stratum keeps sizes chosen by the seed
+        sel = []
+        for c in grid:
+            h = int(hashlib.sha256(("%s|%d" % (c, seed)).encode()).hexdigest()[:8], 16)
+            if c[0] in (1, 2, 4, 8, 16, 24, 32, 40, 64, 72) and h % 3 == 0 or h % 11 == 0:
+                sel.append(c)
+        grid = sel
+    rp.exhaustive = tier != "quick"
+    ntu = 16
+    gen_dir = os.path.join(svlib.CACHE, "gen-layout-%s-%d" % (tier, seed))
+    os.makedirs(gen_dir, exist_ok=True)
+    jobs = []
+    rt_every = 1 if tier == "quick" else 4
+    for i in range(ntu):
+        part = grid[i::ntu]
+        lines = ['#include "layout_common.hpp"', "int main () {"]
+        for j, (sz, al, state, st, stname) in enumerate(part):
+            lines.append('  Probe<%d, %d, %d, %s>::print ("%s");' % (sz, al, state, st, stname))
+            if j % rt_every == 0:
+                lines.append('  Probe<%d, %d, %d, %s>::runtime ("%s");' % (sz, al, state, st, stname))
+        lines += ['  std::printf ("{\\"type\\":\\"done\\",\\"chunks\\":1,\\"deaths\\":0}\\n");', "  return 0;", "}"]
+        src = os.path.join(gen_dir, "layout_%02d.cpp" % i)
+        text = "\n".join(lines) + "\n"
+        if not os.path.exists(src) or open(src).read() != text:
+            with open(src, "w") as f:
+                f.write(text)
+        jobs.append({"src": src, "cc": "g++", "flags": ["-std=c++17", "-O0", "-fsanitize=undefined", "-fno-sanitize-recover=all", "-I", os.path.join(svlib.HARNESS, "src")],
+                     "args": [], "name": "layout/%02d" % i})
+        if tier != "quick" and i % 4 == 0:
+            jobs.append({"src": src, "cc": "clang++", "flags": ["-std=c++20", "-O0", "-I", os.path.join(svlib.HARNESS, "src")], "args": [], "name": "layout-clang/%02d" % i})
+    specs = [{"src": j["src"], "cc": j["cc"], "flags": j["flags"], "name": "layout", "extra_inputs": [os.path.join(svlib.HARNESS, "src", "layout_common.hpp")]} for j in jobs]
+    t0 = time.time()
+    bins = build_many(specs)
+    log("[C19] built %d layout probes in %.1fs" % (len(bins), time.time() - t0))
+    cmds, names = [], []
+    for j, b in zip(jobs, bins):
+        if isinstance(b, BuildError):
+            rp.add_violation("layout|C19|compile-rejected|%s" % j["name"], "layout probe rejected by the compiler: %s" % b.diag[-2000:], {"engine": "layout", "replay_cmd": ["false"]})
+            continue
+        cmds.append([b]); names.append(j["name"])
+    results = run_many(cmds, timeout=1200)
+    rows = 0
+    for res, name in zip(results, names):
+        if res["rc"] != 0:
+            rp.add_violation("layout|C19|probe-died|%s" % name.split("/")[0], "layout probe exited with %s: %s" % (res["rc"], svlib.san_summary(res["err"])), {"engine": "layout", "replay_cmd": res["cmd"]})
+        for line in res["out"].splitlines():
+            if not line.startswith("{"):
+                continue
+            d = json.loads(line)
+            if d["type"] == "layout":
+                rows += 1
+                cfgs = "S=%d,Al=%d,state=%d,st=%s" % (d["S"], d["Al"], d["state"], d["st"])
+                rp.coverage["tuples"][cfgs] = 1
+                rep = {"engine": "layout", "replay_cmd": res["cmd"], "config": cfgs, "observed": d}
+                D = d["D"]
+                if d["sD1"] <= 64:
+                    rp.add_violation("layout|C19|default.more-would-fit|%s,D=%d" % (cfgs, D),
+                                     "%s: default inline capacity %d gives a %d-byte object, but %d elements also fit in 64 bytes (sizeof = %d)" % (cfgs, D, d["sD"], D + 1, d["sD1"]), rep)
+                elif d["sD"] > 64 and D > 1:
+                    rp.add_violation("layout|C19|default.object-exceeds-64|%s,D=%d" % (cfgs, D),
+                                     "%s: default inline capacity %d gives a %d-byte object (> 64)" % (cfgs, D, d["sD"]), rep)
+                if d["icD"] != D or d["ic0"] != 0:
+                    rp.add_violation("layout|C19|inline_capacity|%s" % cfgs, "%s: inline_capacity() reports %d / %d for N = %d / 0" % (cfgs, d["icD"], d["ic0"], D), rep)
+                if d["emptyA"]:
+                    want = (8 + 2 * d["stsize"] + 7) // 8 * 8
+                    if d["s0"] != want:
+                        rp.add_violation("layout|C19|empty-base-size|%s" % cfgs, "%s: sizeof(small_vector<T,0,stateless A>) = %d, expected pointer + 2 size_type rounded up = %d" % (cfgs, d["s0"], want), rep)
+                if len(rp.coverage["samples"]) < 6 and rows % 97 == 1:
+                    rp.coverage["samples"].append(d)
+            elif d["type"] == "layout-rt":
+                rp.coverage["counters"]["runtime-placements"] = rp.coverage["counters"].get("runtime-placements", 0) + d["tried"]
+                if d["bad"]:
+                    cfgs = "S=%d,Al=%d,state=%d,st=%s" % (d["S"], d["Al"], d["state"], d["st"])
+                    rp.add_violation("layout|C19|inline-buffer-misaligned|%s" % cfgs, "%s: inline buffer not aligned for T / not inside the object in %d of %d placements" % (cfgs, d["bad"], d["tried"]),
+                                     {"engine": "layout", "replay_cmd": res["cmd"]})
+    rp.coverage["evaluations"] = rows
+    if rows < len(grid):
+        rp.add_inconclusive("only %d of %d configurations were observed" % (rows, len(grid)))
+    return rp.finish()
+
 
 CHECKS = {
     "C01": check_C01, "C02": check_C02, "C03": check_C03, "C04": check_C04, "C05": check_C05, "C06": check_C06,
-    "C07": check_C07, "C09": check_C09, "C10": check_C10, "C11": check_C11, "C15": check_C15, "C12": check_C12, "C14": check_C14, "C16": check_C16,
+    "C07": check_C07, "C09": check_C09, "C10": check_C10, "C11": check_C11, "C15": check_C15, "C12": check_C12, "C14": check_C14, "C16": check_C16, "C18": check_C18, "C19": check_C19,
 }
 
 
